@@ -265,6 +265,10 @@ Mutants(c) ==
   \* access and group qualification on a value of that type), entity member before or after the select member
   \cup {[M("select_cycle", 0, "", "SELECT_LOOP") EXCEPT !.pos = p] : p \in {"entity_first_dot", "select_first_dot", "entity_first_group", "three_dot"}}
   \* (an attribute named after a group qualifier is looked up in that entity: the diagnostic is the one for unknown attributes)
+  \* a cycle of selects and a select outside the cycle that has a member of it as an item; the resolver walks the types in the
+  \* hash order of their names, so the outside select is tried under several names
+  \cup {[M("select_cycle", 0, "", "SELECT_LOOP") EXCEPT !.pos = "outside:" \o n] :
+          n \in {"picked_item", "any_item", "a0", "zz9", "m_outer", "geometry_item", "b_sel", "outer_choice"}}
   \cup {[M("undef_ref", 1, "nosuch_a", IF p = "derive_group" THEN "UNKNOWN_ATTR_IN_ENTITY" ELSE "UNDEFINED") EXCEPT !.pos = p] : p \in UndefRefPos}
 
 (* lexical mutants (C20): the offending character / identifier / count must be the one quoted *)
